@@ -477,3 +477,68 @@ def random_schedule(rng: random.Random, cfg: dict, n_events: int, p_fault: float
     for _ in range(rng.randrange(0, 4)):
         sch.append(("tick",))
     return sch
+
+
+# ---------------------------------------------------------- systematic families
+def happy_story(cfg: dict, hello=None, connect=None) -> list:
+    hello = hello or {"k": "hello", "major": 1, "name": "dev"}
+    connect = connect or {"k": "connect", "invalid": False}
+    st = [("ev", "start"), ("ev", "resolve", "ok"), ("ev", "tcp", "ok"), ("ev", "finish", cfg["login"])]
+    if cfg["noise"]:
+        st.append(("ev", "handshake", "ok"))
+    st.append(("ev", "chunk", [hello, connect] if cfg["login"] else [hello]))
+    st += [
+        ("ev", "sub", 1, "A", "none"),
+        ("ev", "call", "c1", "list", 1),
+        ("ev", "chunk", [{"k": "A", "key": 1}]),
+        ("ev", "sub", 2, "B", "none"),
+        ("ev", "chunk", [{"k": "pingreq"}, {"k": "B"}]),
+    ]
+    return st
+
+
+CLOSERS_SYS = [
+    [("ev", "force")],
+    [("ev", "disconnect")],
+    [("ev", "eof")],
+    [("ev", "reset")],
+    [("ev", "junk", "ProtocolAPIError")],
+    [("ev", "junk", "RequiresEncryptionAPIError")],
+    [("ev", "chunk", [{"k": "discreq"}, {"k": "A", "key": 1}, {"k": "B"}])],
+    [("ev", "chunk", [{"k": "A", "key": 2}, {"k": "garbage"}, {"k": "A", "key": 1}])],
+    [("ev", "writefail", True), ("ev", "chunk", [{"k": "pingreq"}, {"k": "A", "key": 1}])],
+    [("tick",)],
+    [("ev", "chunk", [{"k": "discreq"}]), ("ev", "chunk", [{"k": "A", "key": 1}])],
+]
+GAPS_SYS = [[], [("iter", 1)], [("idle",)]]
+
+
+def crash_point_family(cfgs: list, pairs: bool, rng: random.Random | None = None, limit: int | None = None) -> list:
+    """A close cause (or an ordered pair) injected before every step of the story, with every gap."""
+    out = []
+    for cfg in cfgs:
+        story = happy_story(cfg)
+        for p in range(1, len(story) + 1):
+            for ci, closer in enumerate(CLOSERS_SYS):
+                for g1 in GAPS_SYS:
+                    for g0 in ([("idle",)], [("iter", 1)], []):
+                        base = []
+                        for ev in story[:p]:
+                            base.append(ev)
+                            base += [("idle",)] if ev is not story[p - 1] else g0
+                        seconds = [None]
+                        if pairs:
+                            seconds = [None] + [c for c in CLOSERS_SYS]
+                        for second in seconds:
+                            sch = list(base) + list(closer) + list(g1)
+                            if second is not None:
+                                sch += list(second) + [("iter", 1)]
+                            # the rest of the story still arrives
+                            for ev in story[p:]:
+                                sch.append(ev)
+                                sch.append(("iter", 1))
+                            sch += [("idle",), ("tick",), ("tick",), ("tick",)]
+                            out.append((cfg, sch))
+    if limit is not None and rng is not None and len(out) > limit:
+        out = rng.sample(out, limit)
+    return out
